@@ -4,6 +4,7 @@ package spec
 
 import (
 	"encoding/json"
+	"net/url"
 	"strings"
 )
 
@@ -34,6 +35,12 @@ func (w *vWorld) cyclicFrom(start vNodeID) bool {
 		}
 	}
 	return false
+}
+
+func vSameAuthority(a, b string) bool {
+	ua, e1 := url.Parse(a)
+	ub, e2 := url.Parse(b)
+	return e1 == nil && e2 == nil && ua.Scheme == ub.Scheme && ua.Host == ub.Host
 }
 
 func vC03Run(w *vWorld, orders bool) {
@@ -74,7 +81,9 @@ func vC03Run(w *vWorld, orders bool) {
 		if abs {
 			vAssert(vIsAbsURL(r), "with AbsoluteCircularRef a remaining $ref is not an absolute URL")
 		} else {
-			vAssert(!vIsAbsURL(r), "without AbsoluteCircularRef a remaining $ref is an absolute URL")
+			if vSameAuthority(id.doc, w.root) { // another scheme or host:port can only be named absolutely
+				vAssert(!vIsAbsURL(r), "without AbsoluteCircularRef a remaining $ref is an absolute URL")
+			}
 			if id.doc == w.root {
 				vAssert(strings.HasPrefix(r, "#"), "a remaining $ref into the root document is not fragment-only")
 			}
@@ -98,3 +107,6 @@ func vh_C03_schemas() { vC03Run(vWorldSchemas(), true) }
 func vh_C03_chain_params()    { vC03Run(vWorldChains(0), false) }
 func vh_C03_chain_responses() { vC03Run(vWorldChains(1), false) }
 func vh_C03_chain_pathitems() { vC03Run(vWorldChains(2), false) }
+
+func vh_C03_ports()     { vC03Run(vWorldPorts(), true) }
+func vh_C03_casetwins() { vC03Run(vWorldCaseTwins(), true) }
